@@ -165,6 +165,12 @@ func runC04(env *Env) {
 		return out
 	}
 	newAlphabet := func(mode string) *c04Alphabet {
+		if r.Intn(10) == 0 {
+			// B is the degenerate template without fields (accepted by the collector, it defines
+			// zero-length records): it REPLACES A like any other template
+			env.Count("alphabet/B-has-no-fields")
+			return &c04Alphabet{fsA: c04Template(r, true), fsB: nil, r: r}
+		}
 		if r.Intn(4) == 0 {
 			for try := 0; try < 20; try++ {
 				a := c04Template(r, true)
